@@ -1,5 +1,107 @@
-import Unsized.Codec
+import Unsized.CodecLemmasTop
+/-!
+# C04 — Safe parsing of arbitrary bytes is memory-safe and never admits invalid values
+
+For ALL byte lists and ALL shapes (no well-formedness assumption on either, arbitrary nesting).
+The definitions are those of `Unsized/Codec.lean` that the driver `c04_model` executes:
+`extent` = `get_ptr`, `decode` = `UnsizedType::owned` (= client `deserialize_type`),
+`viewTop m` = wrapper construction + full walk by `get(i)` / `get_mut(i)` / iteration,
+`deserializeAccount` = client `deserialize_account`. `E.ub` is the outcome of an out-of-bounds
+raw read (`rawSlice`: every `slice::from_raw_parts` / DST-pointer dereference of the real code).
+-/
 namespace Unsized.C04
-open Unsized
-theorem placeholder : True := trivial
+open Unsized Common
+
+/-- The extent `get_ptr` reports lies inside the input. -/
+theorem parse_extent (s : Shape) (bs : List Nat) (n : Nat) (h : extent s bs = .ok n) :
+    n ≤ bs.length := (extP_all s bs).2 n h
+
+/-- … and so does the extent of every successful owned conversion / view. -/
+theorem decode_extent (s : Shape) (bs : List Nat) (v : Val) (n : Nat)
+    (h : decode s bs = .ok (v, n)) : n ≤ bs.length :=
+  parse_extent s bs n ((decode_ok_iff s bs v n).1 h).1
+
+theorem view_extent (m : Mode) (s : Shape) (bs : List Nat) (v : Val) (n : Nat)
+    (h : viewTop m s bs = .ok (v, n)) : n ≤ bs.length := by
+  unfold viewTop at h
+  cases hx : extent s bs with
+  | error e => rw [hx] at h; simp at h
+  | ok k =>
+    rw [hx] at h
+    simp only [] at h
+    cases hy : view m s bs with
+    | error e => rw [hy] at h; simp at h
+    | ok w => rw [hy] at h; simp at h; rw [← h.2]; exact parse_extent s bs k hx
+
+example : extent (.ulist (.list (.pod 1) 4)) d4Input = .ok 25 :=
+  (okExtent_iff _ _).1 (by decide)
+
+/-- A produced owned value is valid: every record has its width, every `bool` byte is 0/1, every
+C-like enum byte and every enum discriminant is a known one, strings are UTF-8, set/map keys are
+strictly increasing (`valid`). -/
+theorem parse_valid (s : Shape) (bs : List Nat) (v : Val) (n : Nat) (hwf : BytesWF bs)
+    (h : decode s bs = .ok (v, n)) : valid s v = true := by
+  obtain ⟨h1, h2⟩ := (decode_ok_iff s bs v n).1 h
+  exact pv_all s bs hwf n h1 v h2
+
+/-- Every value a view walk exposes — through `get(i)`, `get_mut(i)` or iteration, at any nesting
+depth — has valid bit patterns: right widths, `bool` bytes 0/1, known C-like enum bytes and enum
+discriminants, UTF-8 strings (`bitsOk` = `valid` without the key-order requirement, since views
+show containers in stored order). -/
+theorem view_valid (m : Mode) (s : Shape) (bs : List Nat) (v : Val) (n : Nat)
+    (h : viewTop m s bs = .ok (v, n)) : bitsOk s v = true := by
+  unfold viewTop at h
+  cases hx : extent s bs with
+  | error e => rw [hx] at h; simp at h
+  | ok k =>
+    rw [hx] at h
+    simp only [] at h
+    cases hy : view m s bs with
+    | error e => rw [hy] at h; simp at h
+    | ok w => rw [hy] at h; simp at h; rw [← h.1]; exact vv_all s m bs k hx w hy
+
+/-- Client `deserialize_account` likewise. -/
+theorem client_parse_valid (d : List Nat) (inner : Shape) (bs : List Nat) (v : Val) (n : Nat)
+    (hwf : BytesWF bs) (h : deserializeAccount d inner bs = .ok (v, n)) :
+    valid inner v = true ∧ n ≤ bs.length ∧ bs.take d.length = d := by
+  by_cases h1 : d.length ≤ bs.length
+  · by_cases hd : bs.take d.length = d
+    · simp only [deserializeAccount, checkDiscriminant, if_pos h1, hd, if_true] at h
+      have hv := parse_valid _ bs v n hwf h
+      exact ⟨by cases v <;> simpa [valid] using hv, decode_extent _ bs v n h, hd⟩
+    · simp [deserializeAccount, checkDiscriminant, h1, hd] at h
+  · simp [deserializeAccount, checkDiscriminant, h1] at h
+
+/-- An invalid `bool` is never admitted: the owned conversion of `List<bool>` bytes `01 02` errs. -/
+example : decode (.list .bool 1) [1, 2] = .error .checkedCast := (failsWith_iff _ _).1 (by decide)
+example : viewTop .get (.list .bool 1) [1, 2] = .error .panic := (failsWith_iff _ _).1 (by decide)
+example : decode (.enum [0, 5] [.unit, .rem]) [4] = .error .invalidData :=
+  (failsWith_iff _ _).1 (by decide)
+
+/-- No read-side API ever performs an out-of-bounds raw read, on any input: `get_ptr`, the owned
+conversion, and the full walk through shared views (`get(i)`), exclusive views (`get_mut(i)`)
+and iteration all end in a value, an error or a controlled panic — never `E.ub`. -/
+theorem reads_in_bounds (s : Shape) (bs : List Nat) :
+    extent s bs ≠ .error .ub ∧ decode s bs ≠ .error .ub ∧ ∀ m, viewTop m s bs ≠ .error .ub :=
+  ⟨(extP_all s bs).1, decode_ne_ub s bs, fun m => viewTop_ne_ub m s bs⟩
+
+/-- Client `deserialize_account` likewise. -/
+theorem client_reads_in_bounds (d : List Nat) (inner : Shape) (bs : List Nat) :
+    deserializeAccount d inner bs ≠ .error .ub := by
+  by_cases h1 : d.length ≤ bs.length
+  · by_cases hd : bs.take d.length = d
+    · simp only [deserializeAccount, checkDiscriminant, if_pos h1, hd, if_true]
+      exact decode_ne_ub _ bs
+    · simp [deserializeAccount, checkDiscriminant, h1, hd]
+  · simp [deserializeAccount, checkDiscriminant, h1]
+
+/-- Non-vacuity of `E.ub`: the iterator as it was BEFORE the fix (`elemsUnchecked`: a raw slice at
+the stored offsets with no check) does read out of bounds on the 25-byte input of DESIGN.md D4,
+while the current iterator answers `PointerOutOfBounds` on the same bytes. -/
+theorem iter_unchecked_ub_witness : iterUncheckedListU8 d4Input = .error .ub :=
+  (failsWith_iff _ _).1 (by decide)
+
+theorem iter_checked_on_witness :
+    viewTop .iter (.ulist (.list (.pod 1) 4)) d4Input = .error .oob := (failsWith_iff _ _).1 (by decide)
+
 end Unsized.C04
